@@ -124,10 +124,8 @@ let first_diff a b =
     | [], y :: _ -> Some (i, "<none>", y) in
   go 0 a b
 
-let verdict case impl =
-  match case with
-  | [] -> "error empty-case"
-  | _kind :: optoks ->
+(* ------------------------------------------------------------------ state-machine cases *)
+let verdict_sm optoks impl =
     let ops = expand_ops optoks in
     let (m, rs) = hm_run hm_new ops in
     let model = compress (List.map res_text rs) @ final_text m in
@@ -152,5 +150,352 @@ let verdict case impl =
         "diff implementation-panicked " ^ where
       else "diff " ^ where
     end
+
+(* ------------------------------------------------------------------ timed state-machine cases (kind T)
+   ops additionally: w<ms> (time passes; no model step) and c (old_orphans_count).  The real clock
+   reading of an `o` / `c` operation lies between the two stamps of K=: the model is run with the
+   latest orphaning times and earliest count times (smallest count) and the other way round
+   (largest count: C02_old_count_bracket); every other result does not depend on the clock
+   (C02_clock_independent) and is compared exactly. *)
+type titem = TI of op | TW | TC
+
+let expand_titems (toks : string list) : titem list =
+  List.concat_map (fun t ->
+    match t.[0] with
+    | 'w' -> [TW]
+    | 'c' -> [TC]
+    | _ -> List.map (fun o -> TI o) (expand_ops [t])) toks
+
+let th_final_text (t : thmap) : string list =
+  let hs = sort_ints (List.map (fun (sid, (rid, tok)) -> (int_of_n sid, int_of_n rid, int_of_n tok))
+                        (melements t.th_handlers)) in
+  let ws = List.mapi (fun i w -> (i, w)) t.th_words in
+  let ws = List.filter (fun (_, w) -> w <> N0) ws in
+  let rs = sort_ints (List.map (fun (r, s) -> (int_of_n r, int_of_n s)) (melements t.th_r2s)) in
+  let os = sort_ints (List.map (fun (s, _) -> int_of_n s) t.th_ot.ot_orphans) in
+  [ "H=" ^ join (fun (s, r, t) -> hx s ^ ":" ^ hx r ^ ":" ^ hx t) hs;
+    "W=" ^ join (fun (i, w) -> hx i ^ ":" ^ hex_of_n w) ws;
+    "R=" ^ join (fun (r, s) -> hx r ^ ":" ^ hx s) rs;
+    "O=" ^ join hx os;
+    "B=" ^ hx (List.length t.th_ot.ot_by);
+    "L=" ^ hx (List.length t.th_words) ]
+
+let starts_with p s = String.length s >= String.length p && String.sub s 0 (String.length p) = p
+
+let verdict_timed optoks impl =
+  let items = expand_titems optoks in
+  let ktok = List.find_opt (starts_with "K=") impl in
+  let impl = List.filter (fun t -> not (starts_with "K=" t)) impl in
+  match ktok with
+  | None ->
+    if List.exists (fun t -> t = "panic" || t = "X=panic") impl then "diff implementation-panicked"
+    else "error no-stamps"
+  | Some k ->
+    let stamps =
+      let body = String.sub k 2 (String.length k - 2) in
+      if body = "-" then [] else
+        List.map (fun p -> match split_dot p with
+            | [lo; hi] -> (n_of_hex lo, n_of_hex hi)
+            | _ -> failwith "bad stamp") (String.split_on_char ',' body) in
+    let nstamped = List.length (List.filter (function TI (OpOrphan _) | TC -> true | _ -> false) items) in
+    if List.length stamps <> nstamped then "error stamp-count"
+    else begin
+      (* min: orphans late (hi), counts early (lo); max: the other way round *)
+      let build pick_orphan pick_count =
+        let rec go items stamps = match items with
+          | [] -> []
+          | TW :: r -> go r stamps
+          | TC :: r -> (match stamps with st :: sr -> TCount (pick_count st) :: go r sr | [] -> [])
+          | TI (OpOrphan rid) :: r ->
+            (match stamps with st :: sr -> TOp (OpOrphan rid, pick_orphan st) :: go r sr | [] -> [])
+          | TI o :: r -> TOp (o, N0) :: go r stamps in
+        go items stamps in
+      let (tmin, rmin) = th_run th_new (build snd fst) in
+      let (_, rmax) = th_run th_new (build fst snd) in
+      let impl_x = expand impl in
+      (* model tokens in item order; a count is replaced by the implementation's when in range *)
+      let rec toks items rmin rmax impl = match items with
+        | [] -> []
+        | TW :: r -> "-" :: toks r rmin rmax (match impl with _ :: i -> i | [] -> [])
+        | _ :: r ->
+          (match rmin, rmax with
+           | TRes a :: rmin', TRes b :: rmax' ->
+             let t = if a = b then res_text a else "clock-dependent!" ^ res_text a ^ "/" ^ res_text b in
+             t :: toks r rmin' rmax' (match impl with _ :: i -> i | [] -> [])
+           | TCnt a :: rmin', TCnt b :: rmax' ->
+             let lo = int_of_n a and hi = int_of_n b in
+             let it = match impl with x :: _ -> x | [] -> "" in
+             let inrange =
+               String.length it > 1 && it.[0] = 'n' &&
+               (match int_of_string_opt ("0x" ^ String.sub it 1 (String.length it - 1)) with
+                | Some v -> lo <= v && v <= hi | None -> false) in
+             let t = if inrange then it else Printf.sprintf "n%x..%x" lo hi in
+             t :: toks r rmin' rmax' (match impl with _ :: i -> i | [] -> [])
+           | _ -> ["model-shape"]) in
+      let model = toks items rmin rmax impl_x @ th_final_text tmin in
+      if model = impl_x then "ok"
+      else begin
+        let where = match first_diff model impl_x with
+          | Some (i, x, y) -> Printf.sprintf "at=%d model=%s impl=%s" i x y
+          | None -> "at=?" in
+        (* the property on the implementation's own results (time and counts left out) *)
+        let n = List.length items in
+        let pairs = List.combine items (take n (impl_x @ List.init n (fun _ -> "?"))) in
+        let sel = List.filter_map (function (TI o, t) -> Some (o, t) | _ -> None) pairs in
+        let ops = List.map fst sel in
+        let parsed = List.map (fun (o, t) -> res_parse o t) sel in
+        if List.length impl_x >= n && List.for_all (fun x -> x <> None) parsed && sm_applicable ops then begin
+          let prs = List.map (function Some x -> x | None -> RUnit) parsed in
+          if sm_check ops prs then "diff " ^ where else "viol property-fails-on-impl-results " ^ where
+        end else if List.exists (fun t -> t = "panic" || t = "X=panic") impl then
+          "diff implementation-panicked " ^ where
+        else "diff " ^ where
+      end
+    end
+
+(* ------------------------------------------------------------------ end-to-end histories (kinds P R X G)
+   the extracted acceptor c02_trace_ok (proved sound against the connection model: C02_trace_sound)
+   on the merged event list *)
+type etok = Ev of ev | Cancel | Bad of string
+
+let parse_event (t : string) : etok =
+  try
+    let rest = String.sub t 1 (String.length t - 1) in
+    match t.[0] with
+    | 's' -> Ev (ESub (n_of_hex rest))
+    | 'c' when String.length t > 1 && (match rest.[0] with '0'..'9' | 'a'..'f' -> true | _ -> false)
+               && not (starts_with "close" t) -> Cancel
+    | 'i' -> (match split_dot rest with [s; m] -> Ev (EIn (n_of_hex s, n_of_hex m)) | _ -> Bad t)
+    | 'o' -> (match split_dot rest with [s; m] -> Ev (EOut (n_of_hex s, n_of_hex m)) | _ -> Bad t)
+    | 'd' ->
+      (match String.index_opt rest '.' with
+       | None -> Bad t
+       | Some i ->
+         let m = n_of_hex (String.sub rest 0 i) in
+         let o = String.sub rest (i + 1) (String.length rest - i - 1) in
+         if o = "a" then Ev (EDone (m, OErrAlloc))
+         else if o <> "" && o.[0] = 'r' then Ev (EDone (m, ORows (n_of_hex (String.sub o 1 (String.length o - 1)))))
+         else if o <> "" && o.[0] = 'x' then Ev (EDone (m, OOther))
+         else Bad t)
+    | _ -> Bad t
+  with _ -> Bad t
+
+let ev_text = function
+  | ESub m -> "s" ^ hex_of_n m
+  | EIn (s, m) -> "i" ^ hex_of_n s ^ "." ^ hex_of_n m
+  | EOut (s, m) -> "o" ^ hex_of_n s ^ "." ^ hex_of_n m
+  | EDone (m, ORows x) -> "d" ^ hex_of_n m ^ ".r" ^ hex_of_n x
+  | EDone (m, OErrAlloc) -> "d" ^ hex_of_n m ^ ".a"
+  | EDone (m, OOther) -> "d" ^ hex_of_n m ^ ".x"
+
+let verdict_e2e impl =
+  match impl with
+  | "setup-error" :: r -> "error setup " ^ String.concat " " r
+  | _ ->
+    match List.find_opt (starts_with "T=") impl with
+    | None -> "error no-trace " ^ String.concat " " (take 3 impl)
+    | Some t ->
+      let body = String.sub t 2 (String.length t - 2) in
+      let toks = if body = "-" then [] else String.split_on_char ',' body in
+      (* informational tokens: the connection was closed / went silent / raw bytes without a frame *)
+      let info t = starts_with "close" t || t = "stalled" || t = "rawout" in
+      let rec upto_close = function
+        | [] -> []
+        | t :: _ when starts_with "close" t -> []
+        | t :: r -> t :: upto_close r in
+      let closed = List.exists (fun t -> starts_with "close" t) toks in
+      let conns = match List.find_opt (starts_with "conns=") impl with
+        | Some c -> (try int_of_string (String.sub c 6 (String.length c - 6)) with _ -> 1) | None -> 1 in
+      let broken = closed || conns > 1 in
+      let judged = if broken then upto_close toks else toks in
+      let parsed = List.map (fun t -> (t, parse_event t)) (List.filter (fun t -> not (info t)) judged) in
+      (match List.find_opt (function (_, Bad _) -> true | _ -> false) parsed with
+       | Some (t, _) -> "error unknown-event " ^ t
+       | None ->
+         let evs = List.filter_map (function (_, Ev e) -> Some e | _ -> None) parsed in
+         let others = List.filter (fun t -> String.length t > 2 && t.[0] = 'd' &&
+                                            (match String.index_opt t '.' with
+                                             | Some i -> i + 1 < String.length t && t.[i + 1] = 'x'
+                                             | None -> false)) toks in
+         (* which event / which final clause rejects *)
+         let rec go a i = function
+           | [] -> Ok a
+           | e :: r ->
+             (match acc_step a e with
+              | Some a' -> go a' (i + 1) r
+              | None ->
+                let what = match e with
+                  | ESub _ -> "error harness-duplicate-submit"
+                  | EOut _ -> "error mock-answer-not-owed"
+                  | EIn (sid, m) ->
+                    (match PositiveMap.find (mkey sid) a.a_owed with
+                     | Some m' -> "viol stream-carried-by-two-unanswered-requests stream=" ^ hex_of_n sid
+                                  ^ " first=" ^ hex_of_n m' ^ " second=" ^ hex_of_n m
+                     | None -> "viol bad-request-frame")
+                  | EDone (_, ORows _) -> "viol caller-got-a-response-not-sent-for-it"
+                  | EDone (_, OErrAlloc) -> "viol alloc-failure-for-a-written-request"
+                  | EDone (_, OOther) -> "viol second-outcome" in
+                Error (Printf.sprintf "%s at=%d event=%s" what i (ev_text e))) in
+         if broken then begin
+           (* the connection ended inside the scenario although the mock never cuts it: only the
+              history up to the close is judged, event by event (C02_trace_prefix) *)
+           match go acc_init 0 evs with
+           | Error v -> v
+           | Ok _ -> "diff connection-closed-unexpectedly conns=" ^ string_of_int conns
+         end
+         else if c02_trace_ok evs then begin
+           match others, List.filter info toks with
+           | [], [] -> "ok"
+           | t :: _, _ -> "diff unexpected-error-outcome " ^ t   (* the mock never faults in these scenarios *)
+           | [], t :: _ -> "diff unexpected-event " ^ t
+         end else begin
+           match go acc_init 0 evs with
+           | Error v -> v
+           | Ok a ->
+             if final_ok a then "error acceptor-inconsistent" else
+               let bad = List.filter (fun (m, _) -> not (exhaust_ok a m)) (melements a.a_done) in
+               (match bad with
+                | (m, _) :: _ -> "viol alloc-failure-without-exhaustion request=" ^ hex_of_n m
+                | [] -> "error acceptor-inconsistent")
+         end)
+
+(* ------------------------------------------------------------------ reader cases (kind O) *)
+let unhex (h : string) : int array =
+  if h = "-" then [||] else Array.init (String.length h / 2) (fun i -> hexval h.[2*i] * 16 + hexval h.[2*i+1])
+
+type seg = { hdr : int array; blen : int; seed : int; ins : (int * int array) list }
+
+let parse_seg (t : string) : seg =
+  match String.split_on_char ':' t with
+  | [h; l; sd; ins] ->
+    { hdr = unhex h; blen = int_of_string ("0x" ^ l); seed = int_of_string ("0x" ^ sd);
+      ins = if ins = "-" then [] else
+          List.map (fun x -> match String.split_on_char '=' x with
+              | [o; b] -> (int_of_string ("0x" ^ o), unhex b)
+              | _ -> failwith "bad insert") (String.split_on_char '+' ins) }
+  | _ -> failwith "bad segment"
+
+(* byte i of a segment's body; later inserts override earlier ones (the runner overlays in order) *)
+let body_byte (s : seg) (i : int) : int =
+  List.fold_left (fun acc (o, b) -> if i >= o && i < o + Array.length b then b.(i - o) else acc)
+    ((i + s.seed) mod 251) s.ins
+
+let fnv_prime = 0x100000001b3L
+let digest_fn (len : int) (byte : int -> int) : int64 =
+  let h = ref 0xcbf29ce484222325L in
+  let tail = max 0 (len - 70000) in
+  let i = ref 0 in
+  while !i < len do
+    if !i < 4096 || !i >= tail || !i mod 4099 = 0 then begin
+      h := Int64.mul (Int64.logxor !h (Int64.of_int (byte !i))) fnv_prime; incr i
+    end else begin
+      let next_mult = (!i / 4099 + 1) * 4099 in
+      i := min next_mult (max tail (!i + 1))
+    end
+  done; !h
+
+let valid_op o = List.mem o [0; 2; 3; 6; 8; 12; 14; 16]
+
+(* the stream as a function: total length and byte at an absolute offset *)
+let stream_of (segs : seg list) =
+  let arr = Array.of_list segs in
+  let starts = Array.make (Array.length arr + 1) 0 in
+  Array.iteri (fun i s -> starts.(i + 1) <- starts.(i) + Array.length s.hdr + s.blen) arr;
+  let total = starts.(Array.length arr) in
+  let cur = ref 0 in
+  let byte (p : int) : int =
+    (* sequential access mostly: keep a cursor *)
+    while !cur > 0 && p < starts.(!cur) do decr cur done;
+    while !cur < Array.length arr - 1 && p >= starts.(!cur + 1) do incr cur done;
+    let s = arr.(!cur) in
+    let off = p - starts.(!cur) in
+    if off < Array.length s.hdr then s.hdr.(off) else body_byte s (off - Array.length s.hdr) in
+  (total, byte)
+
+(* the law of C02_reader_frames, directly on the description: each frame = 9 header bytes + exactly
+   `length` body bytes, the next frame starts right behind *)
+let reader_law (segs : seg list) : string list =
+  let (total, byte) = stream_of segs in
+  let rec go pos acc =
+    if total - pos < 9 then List.rev ("eHeaderIoError" :: acc)
+    else begin
+      let b k = byte (pos + k) in
+      let ver = b 0 in
+      if ver land 0x80 <> 0x80 then List.rev ("eFrameFromClient" :: acc)
+      else if ver land 0x7f <> 4 then List.rev (Printf.sprintf "eVersionNotSupported.%x" (ver land 0x7f) :: acc)
+      else if not (valid_op (b 4)) then List.rev ("eUnknownResponseOpcode" :: acc)
+      else begin
+        let len = (b 5 lsl 24) lor (b 6 lsl 16) lor (b 7 lsl 8) lor b 8 in
+        let avail = total - pos - 9 in
+        if avail < len then List.rev (Printf.sprintf "eConnectionClosed.%x.%x" (len - avail) len :: acc)
+        else begin
+          let start = pos + 9 in
+          let d = digest_fn len (fun i -> byte (start + i)) in
+          let tok = Printf.sprintf "f%x.%x.%x.%x.%Lx" ((b 2 lsl 8) lor b 3) (b 1) (b 4) len d in
+          go (start + len) (tok :: acc)
+        end
+      end
+    end in
+  go 0 []
+
+(* the same through the extracted reader model, on the materialised bytes *)
+let reader_model (segs : seg list) : string list =
+  let (total, byte) = stream_of segs in
+  let bytes = List.init total (fun i -> n_of_int (byte i)) in
+  let (fs, e) = read_frames (nat_of_int (List.length segs + 70)) bytes in
+  let ftok (f : frame) =
+    let h = Array.of_list (List.map int_of_n f.f_hdr) in
+    let body = Array.of_list (List.map int_of_n f.f_body) in
+    Printf.sprintf "f%x.%x.%x.%x.%Lx" ((h.(2) lsl 8) lor h.(3)) h.(1) h.(4) (Array.length body)
+      (digest_fn (Array.length body) (fun i -> body.(i))) in
+  let etok = match e with
+    | RdBad FrameFromClient -> "eFrameFromClient"
+    | RdBad (VersionNotSupported v) -> "eVersionNotSupported." ^ hex_of_n v
+    | RdBad (UnknownOpcode _) -> "eUnknownResponseOpcode"
+    | RdNeedMore left ->
+      let left = int_of_n left in
+      if left < 9 then "eHeaderIoError"
+      else begin
+        (* header complete, body short: the declared length is in the last 4 header bytes *)
+        let pos = total - left in
+        let len = (byte (pos + 5) lsl 24) lor (byte (pos + 6) lsl 16) lor (byte (pos + 7) lsl 8) lor byte (pos + 8) in
+        Printf.sprintf "eConnectionClosed.%x.%x" (len - (left - 9)) len
+      end in
+  List.map ftok fs @ [etok]
+
+let verdict_reader case impl =
+  match case with
+  | [_chunk; segs] ->
+    let segs = List.map parse_seg (List.filter (fun x -> x <> "") (String.split_on_char ';' segs)) in
+    let total = List.fold_left (fun a s -> a + Array.length s.hdr + s.blen) 0 segs in
+    let law = reader_law segs in
+    let expected =
+      if total <= 20000 then begin
+        let m = reader_model segs in
+        if m <> law then Error ("error driver-law-differs-from-extracted-model " ^ String.concat " " m) else Ok law
+      end else Ok law in
+    (match expected with
+     | Error e -> e
+     | Ok exp ->
+       if exp = impl then "ok"
+       else begin
+         let where = match first_diff exp impl with
+           | Some (i, x, y) -> Printf.sprintf "at=%d model=%s impl=%s" i x y
+           | None -> "at=?" in
+         (* a frame handed out that the peer never sent as a frame = the property fails *)
+         let alien = List.filter (fun t -> t <> "" && t.[0] = 'f' && not (List.mem t exp)) impl in
+         match alien with
+         | t :: _ -> "viol reader-returned-a-frame-the-peer-did-not-send " ^ t ^ " " ^ where
+         | [] -> "diff " ^ where
+       end)
+  | _ -> "error bad-reader-case"
+
+let verdict case impl =
+  match case with
+  | [] -> "error empty-case"
+  | "T" :: optoks -> verdict_timed optoks impl
+  | ("P" | "R" | "X" | "G") :: _ -> verdict_e2e impl
+  | "O" :: rest -> verdict_reader rest impl
+  | _kind :: optoks -> verdict_sm optoks impl
 
 let () = run_lines verdict
